@@ -4,7 +4,7 @@ import numpy as np
 from . import common, circ
 
 PID = 'C10'
-TARGETS = ['KyupyVerif.Props.C10']
+TARGETS = ['KyupyVerif.Props.C10', 'KyupyVerif.Props.C10Datasheet']
 RULE = ('(a) correspondence: Lean model dumps (Model/Transform.lean) vs real copy() / pickle round trip / '
         'eliminate_1to1_forks() on random circuits (Verilog- and bench-reader port styles, permuted node order so that state '
         'elements sit anywhere incl. last, fork dictionary order != index order), NNet.wf and NNet.forkIns1 (hypotheses of '
@@ -31,6 +31,11 @@ LIBS = ['GSC180', 'NANGATE', 'NANGATE_ZN', 'SAED32', 'SAED90']
 
 def theorems():
     return common.theorems_of('KyupyVerif/Props/C10.lean', 'KV.C10')
+
+
+def theorems_ds():
+    """composition with C19 (separate module: it depends on the generated library tables)"""
+    return common.theorems_of('KyupyVerif/Props/C10Datasheet.lean', 'KV.C10')
 
 
 def get_tlib(name):
@@ -1034,7 +1039,9 @@ def corr_subst(ck, n):
 def corr_resolve(ck, n):
     """resolve_tlib_cells(): model (resolveCells = substitute folded over the snapshot of the nodes) vs real code"""
     rng = ck.rng
-    raised = covered = 0
+    raised = covered = covered_ds = 0
+    import collections
+    ds_tally = collections.Counter()
     for it in range(n):
         if rng.random() < 0.3:
             tl = rand_synth_lib(rng); special = None; libtag = 'synthetic'
@@ -1045,6 +1052,8 @@ def corr_resolve(ck, n):
         if rng.random() < 0.4: c = permuted(rng, c)
         kinds = sorted({x.kind for x in c.nodes if x.kind in tlib.cells})
         c0json = to_json(c)
+        hnames0, hdump0 = names_arg(c), circ.dump_net(c)
+        insts0 = [(x.index, x.kind) for x in c.nodes if x.kind in tlib.cells]
         blocks = ' '.join(f'@@ {circ.pct(k)} {names_arg(tlib.cells[k][0])} {circ.dump_net(tlib.cells[k][0])}' for k in kinds)
         req = f'resolve {names_arg(c)} {circ.dump_net(c)} {blocks}'
         try:
@@ -1067,7 +1076,7 @@ def corr_resolve(ck, n):
             report(ck, case, f, ('compose', json.dumps(c0json, sort_keys=True), '[["resolve"]]'), True, {'tlib': libtag, 'steps': [['resolve']]},
                    ['stream:corr-resolve-oracle'])
         # hypotheses of C10.resolve_sem on this case, conclusion `result well-formed` on the real dump
-        semtag = 'sem-hyp:raise'
+        semtag = 'sem-hyp:raise'; dstag = 'ds-hyp:not-evaluated'
         if real != 'raise':
             try:
                 hyp = common.run_driver(['resolveok' + req[len('resolve'):]])[0].split()
@@ -1076,6 +1085,9 @@ def corr_resolve(ck, n):
                 why = hyp[3]
                 if ok:
                     covered += 1
+                    dstag = ds_hyp(libtag, tlib, hnames0, hdump0, insts0)
+                    if dstag == 'ds-hyp:covered': covered_ds += 1
+                    ds_tally[dstag] += 1
                     rwf = common.run_driver([f'xform wf {names_arg(c)} {circ.dump_net(c)}'])[0]
                     if rwf != '1' or hyp[2] != '1':
                         ck.broken_tie('resolve_sem: well-formed result on the real circuit', f'resolveOKB holds but wf(real result) = {rwf}, '
@@ -1083,7 +1095,9 @@ def corr_resolve(ck, n):
             except Exception as ex:
                 ck.broken_tie('resolve_sem hypotheses', f'driver: {type(ex).__name__}: {ex}'[:300], inp={'request': req[:4000]})
         ck.case(key=('resolve', req), nontrivial=real != 'raise' and len(kinds) > 0,
-                tag=['stream:corr-resolve', f'lib:{libtag}', f'instances:{min(len(kinds), 4)}', f"resolve-result:{'raise' if real == 'raise' else 'ok'}", semtag])
+                tag=['stream:corr-resolve', f'lib:{libtag}', f'instances:{min(len(kinds), 4)}', f"resolve-result:{'raise' if real == 'raise' else 'ok'}", semtag, dstag])
+    ck.extra['corr_resolve_in_hypotheses_of_resolve_datasheet_sem'] = covered_ds
+    ck.extra['corr_resolve_ds_hyp'] = dict(ds_tally)
     ck.extra['corr_resolve_raised'] = raised
     ck.extra['corr_resolve_in_hypotheses_of_resolve_sem'] = covered
 
@@ -1221,8 +1235,70 @@ def corpus_cases():
     return [json.load(open(f)) for f in sorted(glob.glob(os.path.join(common.VERIF, 'corpus', 'C10-*.json')))]
 
 
+_cell_cert = {}
+
+
+def cell_cert(libname, kind):
+    """cell-level clauses of the certificate `InstCert` of C10.resolve_datasheet_sem for one library key, evaluated by the driver on the
+    REAL implementation circuit and its real topological order: Net.wfB / orderOKB (`netcert`), forksOKB / linesDrivenB
+    (`netspeccert`), a row of the generated C19 tables of that library carries the name, implShape, describesB, listed family
+    (`dscell`).  Returns (tag, detail)."""
+    key = (libname, kind)
+    if key in _cell_cert: return _cell_cert[key]
+    if libname not in LIBS:
+        r = ('synthetic-library', '')
+    else:
+        c = get_tlib(libname).cells[kind][0]
+        if len(c.lines) == 0:
+            r = ('no-lines', '')
+        else:
+            dump = circ.dump_net(c)
+            order = ','.join(str(n.index) for n in c.topological_order())
+            out = common.run_driver([f'net {dump}', f'netcert {order}', f'netspeccert {order}',
+                                     f"dscell {LIBS.index(libname)} {circ.pct(kind)} {names_arg(c)} {dump.replace(' ', '')} {order}"])[1:]
+            detail = ' | '.join(out)
+            if 'family=outside' in out[2]: r = ('outside-family', detail)
+            elif out[0] != 'wf=true order=true' or 'row=1 shape=1 describes=1' not in out[2]: r = ('FAIL', detail)
+            elif out[1] != 'forks=true lines=true': r = ('outside-domain', detail)
+            else: r = ('ok', detail)
+    _cell_cert[key] = r
+    return r
+
+
+def cert_library(ck):
+    """every key of the five built-in libraries: which cells `resolve_datasheet_sem` covers"""
+    import collections
+    tally = collections.Counter()
+    for ln in LIBS:
+        for kind in get_tlib(ln).cells:
+            tag, detail = cell_cert(ln, kind)
+            tally[tag] += 1
+            ck.case(key=('ds-cert', ln, kind), nontrivial=tag == 'ok', tag=['stream:ds-cert', f'ds-cert:{tag}', f'lib:{ln}'])
+            if tag == 'FAIL':
+                ck.broken_tie(f'certificate of resolve_datasheet_sem for {ln}.{kind} (listed family): the row of the generated library '
+                              'tables does not describe the implementation circuit / wfB / orderOKB', detail)
+    ck.extra['resolve_datasheet_sem_cell_certificates'] = dict(tally)
+
+
+def ds_hyp(libtag, tlib, hnames, hdump, insts):
+    """instance-level clause: every library-cell instance of the circuit BEFORE resolve_tlib_cells is certified (cell-level
+    certificate ok, `pinsFitB`: all input pins connected and as many as the implementation has input ports)"""
+    if libtag not in LIBS: return 'ds-hyp:uncovered:synthetic-library'
+    if not insts: return 'ds-hyp:no-instance'
+    for idx, kind in insts:
+        tag, _ = cell_cert(libtag, kind)
+        if tag != 'ok': return f'ds-hyp:uncovered:cell-{tag}'
+        impl = tlib.cells[kind][0]
+        fit = common.run_driver([f"dsfit {hnames} {hdump.replace(' ', '')} {idx} {names_arg(impl)} {circ.dump_net(impl).replace(' ', '')}"])[0]
+        if fit != '1': return 'ds-hyp:uncovered:pins'
+    return 'ds-hyp:covered'
+
+
 def run(ck):
-    ck.prove([], TARGETS, theorems())
+    ck.prove([], TARGETS[:1], theorems())
+    import dump_techlib, dump_tables
+    ck.prove([dump_tables.generate, dump_techlib.generate], TARGETS[1:], theorems_ds())   # separate module: depends on the library tables
+    cert_library(ck)
     thorough = ck.tier == 'thorough'
     for case in corpus_cases():
         try:
@@ -1251,6 +1327,11 @@ def run(ck):
         'squeezed by the code repaired for D30 are included) - the harness '
         'counts the real cases inside these hypotheses (driver substok / resolveok) and checks the well-formedness of the real '
         'result there; outside them the function after substitute / resolve_tlib_cells is validated by simulation before/after only',
+        'resolve_datasheet_sem (Props/C10Datasheet.lean, composition with C19): the cell-level clauses of its certificate InstCert '
+        '(wfB, orderOKB, forksOKB, linesDrivenB of the implementation, describesB against the row of the generated library tables, '
+        'listed family) are evaluated for EVERY key of the five libraries on the real implementation circuits (stream ds-cert: '
+        'ok = covered, outside-family / no-lines = not covered, FAIL = broken tie), the instance-level clause pinsFitB on every generated '
+        'resolve case inside resolveOKB (tag ds-hyp); that the dump is the circuit whose SimOps rows are in the tables is this evaluation, not a theorem',
         'the function is observed through the real LogicSim(m=2) (C01); reference of a circuit with library cells = the same '
         'circuit flattened by an independent inliner (implementation ports become forks, unconnected inputs read 0)',
         'object identity of nodes = (name, class) as in Node.__eq__; dictionary order of forks is an explicit input of the model']
